@@ -978,3 +978,50 @@ def robust_family(run, replay=None):
                           rule_text='every (endpoint, protocol state reached by a prefix of a correct exchange, class of malformed input) triple that is an initial state of Robust.tla, each concretised by several byte strings; after each message a correct handshake on the same connection (at most one rejected start) and on a new connection; distinct = scenario triple; non-trivial = the state is reached by a non-empty correct prefix or the connection is verified',
                           nontrivial=lambda b: b['steps'][0].get('st') not in ('fresh', 'unverified'), extra_cov=extra,
                           fpfun=lambda rule, b, line: '%s/%s,%s,%s' % (rule, line.get('ep'), line.get('st'), line.get('cls')))
+
+
+# =====================================================================================================
+# HonestRun (C04)
+# =====================================================================================================
+
+@register('C04')
+def honest_family(run, replay=None):
+    def gen(run):
+        thorough = run.tier == 'thorough'
+        run.model_check('HonestRun', 'HonestRun_MC.cfg', workers=2)
+        n = 2000 if thorough else 36
+        runs = []
+        for i in range(n):
+            if i % 9 == 7:
+                runs.append([dict(code='wrong', mode='patient', nreq=0)])
+            elif i % 9 == 8:
+                runs.append([dict(code='right', mode='immediate', nreq=1)])
+            elif i % 18 == 5:
+                runs.append([dict(code='right', mode='pipelined', nreq=1)])
+            else:
+                runs.append([dict(code='right', mode='patient', nreq=1 + i % 4)])
+        return [('run', runs)], dict(runs=n, inputs='sampled by seed: setup code, controller identifier (1..64 bytes UTF-8 incl. the 36-character form), Ed25519 / X25519 keys, accessory identity, pre-existing pairings, request sizes 1 frame .. ~30 frames, attribute databases of 1 and 61 accessories')
+
+    def sanity(lines, behs):
+        ok = sum(1 for x in lines if x.get('name') == 'resp' and x.get('framed') == 'enc' and x.get('bodyok'))
+        if ok == 0:
+            raise ToolTrouble('vacuous run: no honest run reached an encrypted response')
+
+    def extra(lines, behs):
+        return dict(messages_parsed=len(lines), pairings_completed=sum(1 for x in lines if x.get('name') == 'M6' and x.get('stored')),
+                    verifications_completed=sum(1 for x in lines if x.get('name') == 'V4' and x.get('framed') == 'plain' and x.get('state') == 4),
+                    encrypted_responses=sum(1 for x in lines if x.get('name') == 'resp'), wrong_code_runs=sum(1 for x in lines if x.get('name') == 'M4err'),
+                    first_request_modes=dict(immediate=sum(1 for b in behs if b['steps'][0].get('mode') == 'immediate'), pipelined=sum(1 for b in behs if b['steps'][0].get('mode') == 'pipelined')))
+
+    def fp(rule, b, line):
+        if rule.startswith('FirstRequest'):
+            return rule
+        return '%s/%s' % (rule, line.get('name') if line.get('name') != 'fail' else line.get('why', '')[:40])
+    rules = {r: 'C04' for r in ('Structure', 'ItemsOnce', 'Crypto', 'WrongCode', 'Stored', 'V4Plain', 'Talk', 'Setup', 'FirstRequest:immediate', 'FirstRequest:pipelined')}
+    return generic_family(run, replay, hcv='honest', trace_mod='HonestRunTrace', gen=gen, rules=rules, level='model_checking',
+                          assumptions=['the reference controller in harness/ref is written from the HAP specification and shares no code with hc (SRP-6a over math/big, HKDF over crypto/hmac, x/crypto AEAD, own TLV8 and framing); RFC 8439 / RFC 5869 primitives come from the Go standard library and x/crypto',
+                                       'SRP padding ambiguity: when A, B or the premaster secret has a leading zero byte the exchange is redrawn (1 run in about 128), as the HAP specification does not say whether these are zero-padded inside the proofs',
+                                       'inputs are sampled by seed (TLA+ cannot enumerate keys); the sequencing, hand-over point and wrong-code branch are model-checked',
+                                       'a patient controller waits until the accessory has switched before its first encrypted request; immediate and pipelined controllers do not (see KNOWN_FINDINGS.txt D16)'],
+                          rule_text='honest runs with sampled inputs; every accessory message is parsed symbolically by the reference controller (items present, each once; which nonce string opened the box under the prescribed key; the material order under which the signature verified; proof verification; stored entity) and compared by TLC with the structure the HAP specification prescribes; distinct = (code, first-request mode, number of requests); non-trivial = right code',
+                          nontrivial=lambda b: b['steps'][0].get('code') == 'right', sanity=sanity, extra_cov=extra, fpfun=fp)
